@@ -151,12 +151,23 @@ def check_streams(cell, seed):
     generator in different states (otherwise everything drawn afterwards — e.g. by the next run of a study that seeds once —
     would coincide: the streams have merged)."""
     out = []
-    vals, states = [], []
-    for sd in (seed, seed, seed + 1):
+    vals, states, batches = [], [], []
+    for sd in (seed, seed, seed + 1, seed + 2):
         s, _like = run_cell(cell, sd)
         vals.append(float(s.evidence()[0]))
         st = np.random.get_state()
         states.append((st[1].tobytes(), st[2]))
+        batches.append({np.ascontiguousarray(b).tobytes(): t for t, b in enumerate(s.state.get_history("u"))})
+    # differently seeded runs never share innovations: no committed batch of one run may reappear, bit for bit, in a run with
+    # another seed (e.g. a per-iteration reseed with random_state + iter makes run s at iteration i replay run s+1 at i-1)
+    for a, b in ((1, 2), (2, 3), (1, 3)):
+        common_b = set(batches[a]) & set(batches[b])
+        if common_b:
+            k = next(iter(common_b))
+            out.append(f"runs with random_state={seed + a - 1} and {seed + b - 1} share {len(common_b)} bit-identical particle batch(es) "
+                       f"(iteration {batches[a][k] + 1} of the first is iteration {batches[b][k] + 1} of the second): their innovations "
+                       f"are not independent")
+            break
     if common.f2hex(vals[0]) != common.f2hex(vals[1]):
         out.append(f"two runs with random_state={seed} reported different evidence: {vals[0]!r}, {vals[1]!r}")
     if common.f2hex(vals[0]) == common.f2hex(vals[2]):
